@@ -76,6 +76,13 @@ def objective(spec):
         return lambda x: float(sum(1 for xi, ci in zip(x, c) if abs(float(xi) - ci) > q))
     if fam == "const":
         return lambda x: float(q)
+    if fam == "nanband":      # not a number on bands of the first coordinate (an objective undefined there), a weighted quadratic elsewhere
+        def nb(x):
+            t = float(x[0]) - math.floor(float(x[0]))
+            if 0.25 < t < 0.75:
+                return float("nan")
+            return float(sum(wi * (float(xi) - ci) ** 2 for wi, xi, ci in zip(w, x, c)))
+        return nb
     if fam in ("rquad", "rqround"):          # non-separable (coupled neighbours); rqround = same, rounded to multiples of q
         def rq(x):
             d = [float(xi) - ci for xi, ci in zip(x, c)]
@@ -432,6 +439,11 @@ def _gen_degen(rng):
     grid = rng.random() < 0.6
     val = (lambda: rng.randint(-12, 12) / 4.0) if grid else (lambda: rng.uniform(-3, 3))
     pop = [[val() for _ in range(D)] for _ in range(NP)]
+    if rng.random() < 0.15:
+        # trial energies that are not numbers: such a trial is not "strictly lower" and must never replace a member (members start where the objective is defined)
+        obj = gen_objective(rng, D, fams=["nanband"])
+        for m in pop:
+            m[0] = float(math.floor(m[0]))
     return dict(kind="degen", solver=rng.choice([1, 2]), name=name, NP=NP, D=D, pop=pop, obj=obj, seed=rng.randrange(10 ** 6),
                 F=rng.choice([0.8, 0.5, 1.0, 0.25, 0.0, 0.0, 1.0]), CR=rng.choice([0.9, 0.5, 0.2, 1.0, 0.0, 0.0, 1.0]),
                 gens=rng.choice([1, 2, 3, 4]), drive=rng.choice(["step", "step", "solve"]), kw_once=rng.random() < 0.3)
@@ -480,6 +492,8 @@ def _run_nm(case):
         solver.SetEvaluationLimits(case["maxiter"], case["maxfun"])
         solver.SetTermination(CRT(case["xtol"], case["ftol"]))
         solver.SetObjective(rec)
+        if case.get("adaptive"):
+            solver.adaptive = True
         guard = 0
         while True:
             msg = solver.Step()
@@ -504,7 +518,7 @@ def _oracle_nm(case, obs):
     out = []
     f = objective(case["obj"])
     x0 = case["x0"]
-    kw = dict(xtol=case["xtol"], ftol=case["ftol"], maxiter=case["maxiter"], maxfun=case["maxfun"])
+    kw = dict(xtol=case["xtol"], ftol=case["ftol"], maxiter=case["maxiter"], maxfun=case["maxfun"], adaptive=bool(case.get("adaptive")))
     r = ref_fmin(f, x0, **kw)
     got = (obs["iter"], obs["funcalls"], obs["warnflag"])
     want = (r["iter"], r["funcalls"], r["warnflag"])
@@ -571,9 +585,12 @@ def _gen_nm(rng, tier, kind=None):
         if mi is None and mf is None:
             mi = rng.choice([40, 80])
     case = dict(kind=kind, obj=obj, x0=x0, xtol=xtol, ftol=ftol, maxiter=mi, maxfun=mf)
+    if kind == "nmapi" and rng.random() < 0.4:      # (the fmin wrapper has no such option)
+        case["adaptive"] = True      # dimension-dependent coefficients (Gao & Han): chi = 1+2/n, psi = 3/4-1/(2n), sigma = 1-1/n
     if u < 0.26:
         # boundary of the stop rule: a tolerance EXACTLY equal to the simplex diameter / energy spread reached at some iteration
-        r = ref_fmin(objective(obj), x0, xtol=1e-300, ftol=1e-300, maxiter=rng.choice([3, 6, 12, 25]), maxfun=10 ** 6, zdelt=MYSTIC_ZDELT)
+        r = ref_fmin(objective(obj), x0, xtol=1e-300, ftol=1e-300, maxiter=rng.choice([3, 6, 12, 25]), maxfun=10 ** 6, zdelt=MYSTIC_ZDELT,
+                     adaptive=bool(case.get("adaptive")))
         sim, fsim = r["sims"][rng.randrange(len(r["sims"]))]
         dx = float(max(abs(float(a) - float(b)) for row in sim[1:] for a, b in zip(row, sim[0])))
         df = float(max(abs(float(fsim[0]) - float(e)) for e in fsim[1:]))
@@ -593,7 +610,11 @@ def _terms_nm(case, obs):
         return ["false"]
     tbl = _tbl(_table([(x, y) for x, y in obs["cost"]]))
     sims = "(%s : list (list (list F * F)))" % lst([_sim_lit(p, e) for p, e in obs["sims"]])
-    P = "(mkP NumF %s %s 1%%float 2%%float 0.5%%float 0.5%%float %s %s)" % (flit(0.05), flit(MYSTIC_ZDELT), flit(case["xtol"]), flit(case["ftol"]))
+    chi, psi, sigma = 2.0, 0.5, 0.5
+    if case.get("adaptive"):
+        dim = float(len(case["x0"]))
+        chi, psi, sigma = 1 + 2 / dim, 0.75 - 1 / (2 * dim), 1 - 1 / dim
+    P = "(mkP NumF %s %s 1%%float %s %s %s %s %s)" % (flit(0.05), flit(MYSTIC_ZDELT), flit(chi), flit(psi), flit(sigma), flit(case["xtol"]), flit(case["ftol"]))
     run = "(nm_run NumF %s (lookup %s) (guided NumF obs) %s %s %s)" % (P, tbl, _fl(case["x0"]), natlit(mi), natlit(mf))
     _DEBUG[:] = ["let obs := %s in option_map (fun r => (r_x NumF r, r_f NumF r, r_iter NumF r, r_calls NumF r, r_warn NumF r, "
                  "length (r_trace NumF r))) %s" % (sims, run)]
